@@ -22,13 +22,13 @@ def main():
     parser.add_argument("--old", action="append", default=[])
     parser.add_argument("--new", action="append", default=[])
     parser.add_argument("--pytest", action="store_true")
-    parser.add_argument("--worktree-of", default="HEAD", help="HEAD (default) or WORKTREE to include uncommitted /repo edits")
+    parser.add_argument("--worktree-of", default="HEAD", help="commit of /repo to start from (default HEAD)")
     parser.add_argument("cmd", nargs=argparse.REMAINDER)
     args = parser.parse_args()
     cmd = args.cmd[1:] if args.cmd and args.cmd[0] == "--" else args.cmd
     wt = tempfile.mkdtemp(prefix="ahb-mut-")
     os.rmdir(wt)
-    subprocess.run(["git", "-C", "/repo", "worktree", "add", "--detach", "-q", wt, "HEAD"], check=True)
+    subprocess.run(["git", "-C", "/repo", "worktree", "add", "--detach", "-q", wt, args.worktree_of], check=True)
     code = 2
     try:
         for patch in args.patch:
